@@ -211,6 +211,13 @@ func init() {
 			in.raceCheck = v != 0
 		case "hashuf":
 			in.hashUF = v != 0
+		case "solver-soft-ms":
+			// incremental per-query timeout after which a query is re-run one-shot
+			in.solver.SoftMs = int(v)
+		case "crc-top-class":
+			// bound: every symbolic CRC value is assumed >= 2^28 (5-byte protobuf varint, 15/16 of all
+			// values) so that record sizes do not fork five ways per record
+			in.crcTop = v != 0
 		case "hangcheck":
 			in.path.reached["opt:hangcheck"] = true
 		default:
@@ -412,7 +419,13 @@ func init() {
 		return ChanV{t.ch}, true
 	})
 	reg(`time.Since`, func(in *Interp, th *Thread, fn *ssa.Function, a []Value) (Value, bool) {
-		return nil, false
+		// elapsed time on the monotonic clock, used only for metrics and slow-operation warnings in
+		// the code under test: concretised to 0 (the warning-log branches are not explored; multiplying
+		// clock readings by 1e9 is a solver blow-up)
+		return in.i64(0), true
+	})
+	reg(`(time.Duration).Seconds (time.Duration).Minutes (time.Duration).Hours`, func(in *Interp, th *Thread, fn *ssa.Function, a []Value) (Value, bool) {
+		return in.ts.UF("dur_"+fn.Name(), F64Sort, in.asTerm(a[0])), true
 	})
 	mkTimer := func(periodic bool) intrinsic {
 		return func(in *Interp, th *Thread, fn *ssa.Function, a []Value) (Value, bool) {
